@@ -67,7 +67,7 @@ theorem C20_bins_by_coordinates (coords : List Rat) (s e : Rat) (hs : Sorted coo
 
 /-- every cell of the raster holds the value of the last box (in list order) covering it, or the
     fill value when no box covers it -/
-theorem C20_cell_value (nx ny : Nat) (boxes : List IBox) (fill : Int) (i j : Nat) (hi : i < nx) (hj : j < ny) :
+theorem C20_cell_value (nx ny : Nat) (boxes : List IBox) (fill : Rat) (i j : Nat) (hi : i < nx) (hj : j < ny) :
     cell (rasterBoxes nx ny boxes fill) i j =
       some (match boxes.reverse.find? (fun b => covered b i j) with
             | some b => b.val
@@ -78,7 +78,7 @@ theorem C20_cell_value (nx ny : Nat) (boxes : List IBox) (fill : Int) (i j : Nat
 
 /-- later geometries overwrite earlier ones: appending a box sets exactly its cells to its value
     and leaves every other cell as it was -/
-theorem C20_last_wins (nx ny : Nat) (boxes : List IBox) (b : IBox) (fill : Int) (i j : Nat)
+theorem C20_last_wins (nx ny : Nat) (boxes : List IBox) (b : IBox) (fill : Rat) (i j : Nat)
     (hi : i < nx) (hj : j < ny) :
     cell (rasterBoxes nx ny (boxes ++ [b]) fill) i j =
       if covered b i j then some b.val else cell (rasterBoxes nx ny boxes fill) i j := by
@@ -88,7 +88,7 @@ theorem C20_last_wins (nx ny : Nat) (boxes : List IBox) (b : IBox) (fill : Int) 
   by_cases hc : covered b i j = true <;> simp [hc]
 
 /-- a cell no geometry covers holds the fill value -/
-theorem C20_untouched_fill (nx ny : Nat) (boxes : List IBox) (fill : Int) (i j : Nat) (hi : i < nx)
+theorem C20_untouched_fill (nx ny : Nat) (boxes : List IBox) (fill : Rat) (i j : Nat) (hi : i < nx)
     (hj : j < ny) (h : ∀ b ∈ boxes, covered b i j = false) :
     cell (rasterBoxes nx ny boxes fill) i j = some fill := by
   rw [C20_cell_value nx ny boxes fill i j hi hj]
@@ -102,7 +102,7 @@ theorem C20_untouched_fill (nx ny : Nat) (boxes : List IBox) (fill : Int) (i j :
 /-- the result is labelled with the template's time and frequency coordinates, in that order, and
     has `nt` rows of `nf` cells — for either dimension order of the template (the model does not
     read the template's contents at all), and the whole result is the same for both orders -/
-theorem C20_axes (t : Template) (geoms : List RGeom) (values : Values) (fill : Int) (at' : Bool) :
+theorem C20_axes (t : Template) (geoms : List RGeom) (values : Values) (fill : Rat) (at' : Bool) :
     (∀ r, rasterize t geoms values fill at' = .ok r →
       r.time = t.time ∧ r.freq = t.freq ∧ r.grid.length = t.time.length ∧
       ∀ row ∈ r.grid, row.length = t.freq.length) ∧
@@ -120,7 +120,7 @@ theorem C20_axes (t : Template) (geoms : List RGeom) (values : Values) (fill : I
     · rfl
 
 /-- a value list whose length differs from the geometry list is rejected, and only that -/
-theorem C20_values_length_rejected (t : Template) (geoms : List RGeom) (vs : List Int) (fill : Int) (at' : Bool) :
+theorem C20_values_length_rejected (t : Template) (geoms : List RGeom) (vs : List Rat) (fill : Rat) (at' : Bool) :
     (vs.length ≠ geoms.length → rasterize t geoms (.many vs) fill at' = .error .invalid) ∧
     (vs.length = geoms.length → ∃ r, rasterize t geoms (.many vs) fill at' = .ok r) := by
   constructor
@@ -128,7 +128,7 @@ theorem C20_values_length_rejected (t : Template) (geoms : List RGeom) (vs : Lis
   · intro h; simp [rasterize, expandValues, h]
 
 /-- a single value stands for that value repeated for every geometry (never rejected) -/
-theorem C20_scalar_value (t : Template) (geoms : List RGeom) (v : Int) (fill : Int) (at' : Bool) :
+theorem C20_scalar_value (t : Template) (geoms : List RGeom) (v : Rat) (fill : Rat) (at' : Bool) :
     rasterize t geoms (.one v) fill at' = rasterize t geoms (.many (List.replicate geoms.length v)) fill at' ∧
     ∃ r, rasterize t geoms (.one v) fill at' = .ok r := by
   constructor
@@ -158,13 +158,221 @@ theorem C20_box_centre_rule (b : IBox) (i j : Nat) (hx : b.ix0 < b.ix1) (hy : b.
     by_cases g1 : i < b.ix0 <;> by_cases g2 : i < b.ix1 <;> by_cases g3 : b.iy0 ≤ j <;> by_cases g4 : b.iy1 ≤ j <;>
       simp [g1, g2, g3, g4] <;> omega
 
+/-! ## every geometry type: the rasteriser as a parameter -/
+
+/-- every geometry type, any rasteriser `B`: every cell of the result holds the value of the *last*
+    geometry (in list order) whose index-space image burns it, or the fill value when none does —
+    "later geometries overwrite earlier ones, untouched cells hold the fill value" for the whole of
+    `rasterize`, with rasterio / GDAL as the parameter -/
+theorem C20_general_cell (B : Burner) (t : Template) (geoms : List Geom) (values : Values) (fill : Rat)
+    (at' : Bool) (r : Raster) (h : rasterizeG B t geoms values fill at' = .ok r) (i j : Nat)
+    (hi : i < t.time.length) (hj : j < t.freq.length) :
+    cell r.grid i j =
+      some (match (List.zip geoms (expandValues values geoms.length)).reverse.find?
+                (fun p => B (image t p.1) at' t.time.length t.freq.length i j) with
+            | some p => p.2
+            | none => fill) := by
+  simp only [rasterizeG, rasterizeM] at h
+  split at h
+  · cases h
+  · cases h
+    simp only [cell_rasterMasks _ _ _ _ i j hi hj, List.zip_map_left, ← List.map_reverse, List.find?_map]
+    have hfun : ((fun p : Mask × Rat => p.1 i j) ∘ Prod.map (fun g => B (image t g) at' t.time.length t.freq.length) id)
+        = (fun p : Geom × Rat => B (image t p.1) at' t.time.length t.freq.length i j) := rfl
+    rw [hfun]
+    cases (List.zip geoms (expandValues values geoms.length)).reverse.find?
+      (fun p : Geom × Rat => B (image t p.1) at' t.time.length t.freq.length i j) with
+    | none => rfl
+    | some p => rfl
+
+/-- every geometry type, any rasteriser: the result is labelled with the template's time and
+    frequency coordinates, has `nt` rows of `nf` cells, and is the same for both dimension orders -/
+theorem C20_general_axes (B : Burner) (t : Template) (geoms : List Geom) (values : Values) (fill : Rat) (at' : Bool) :
+    (∀ r, rasterizeG B t geoms values fill at' = .ok r →
+      r.time = t.time ∧ r.freq = t.freq ∧ r.grid.length = t.time.length ∧
+      ∀ row ∈ r.grid, row.length = t.freq.length) ∧
+    rasterizeG B { t with timeFirst := !t.timeFirst } geoms values fill at' = rasterizeG B t geoms values fill at' := by
+  constructor
+  · intro r h
+    simp only [rasterizeG, rasterizeM] at h
+    split at h
+    · cases h
+    · cases h
+      exact ⟨rfl, rfl, (rasterMasks_shaped _ _ _ _).1, (rasterMasks_shaped _ _ _ _).2⟩
+  · rfl
+
+/-- every geometry type, any rasteriser: a value list of the wrong length is rejected and only
+    that; one value stands for that value repeated and is never rejected -/
+theorem C20_general_values (B : Burner) (t : Template) (geoms : List Geom) (fill : Rat) (at' : Bool) :
+    (∀ vs : List Rat, vs.length ≠ geoms.length → rasterizeG B t geoms (.many vs) fill at' = .error .invalid) ∧
+    (∀ vs : List Rat, vs.length = geoms.length → ∃ r, rasterizeG B t geoms (.many vs) fill at' = .ok r) ∧
+    (∀ v : Rat, rasterizeG B t geoms (.one v) fill at' =
+        rasterizeG B t geoms (.many (List.replicate geoms.length v)) fill at' ∧
+      ∃ r, rasterizeG B t geoms (.one v) fill at' = .ok r) := by
+  refine ⟨?_, ?_, ?_⟩
+  · intro vs h; simp [rasterizeG, rasterizeM, expandValues, h]
+  · intro vs h; simp [rasterizeG, rasterizeM, expandValues, h]
+  · intro v
+    constructor
+    · rfl
+    · simp [rasterizeG, rasterizeM, expandValues]
+
+
+/-- under the box rule (contract `rasterio-box-rule`, evaluated exhaustively on the library every
+    run) the general model restricted to bounding boxes and time intervals *is* the box model, so
+    every theorem about `rasterize` holds of `rasterizeG` on those geometries -/
+theorem C20_general_box (B : Burner) (hB : BoxRule B) (t : Template) (geoms : List RGeom) (values : Values)
+    (fill : Rat) (at' : Bool) :
+    rasterizeG B t (geoms.map RGeom.toGeom) values fill at' = rasterize t geoms values fill at' := by
+  simp only [rasterizeG, rasterizeM, rasterize, List.length_map]
+  split
+  · rfl
+  · simp only [rasterMasks, rasterBoxes]
+    rw [foldl_box_masks B hB t at' geoms _ _ (replicate_shaped _ _ _)]
+
+/-- under the point rule (contract `rasterio-point-rule`) a `Point` marks exactly the cell
+    `(bin of its time, bin of its frequency)` — by `C20_bin_of_start` the bin containing it, bin `0`
+    when it lies below an axis, and nothing at all when it lies beyond one (index = axis size) -/
+theorem C20_point_cell (B : Burner) (hB : PointRule B) (t : Template) (x f v fill : Rat) (at' : Bool) (r : Raster)
+    (h : rasterizeG B t [.point x f] (.one v) fill at' = .ok r) (i j : Nat)
+    (hi : i < t.time.length) (hj : j < t.freq.length) :
+    cell r.grid i j = some (if i = binOf t.time x ∧ j = binOf t.freq f then v else fill) := by
+  rw [C20_general_cell B t _ _ fill at' r h i j hi hj]
+  simp only [expandValues, List.length_cons, List.length_nil, List.replicate, List.zip_cons_cons, List.zip_nil_right,
+    List.reverse_cons, List.reverse_nil, List.nil_append, List.find?_cons, List.find?_nil, image, binPt,
+    hB _ at' _ _ i j hi hj]
+  by_cases h1 : i = binOf t.time x <;> by_cases h2 : j = binOf t.freq f <;> simp [h1, h2]
+
+/-- the property's main clause for a general polygon, under the centre rule of the rasteriser for
+    the polygon's image (monitored on the library for every generated polygon): a cell whose centre is
+    off the boundary of the polygon mapped to bin indices holds the polygon's value exactly when the
+    centre lies inside it (even–odd over shell and holes), else the fill value -/
+theorem C20_polygon_centre_rule (B : Burner) (t : Template) (rings : List (List Pt)) (v fill : Rat) (r : Raster)
+    (hB : CentreRule B (rings.map (fun r => (closeRing r).map (binPt t))) t.time.length t.freq.length)
+    (h : rasterizeG B t [.polygon rings] (.one v) fill false = .ok r) (i j : Nat)
+    (hi : i < t.time.length) (hj : j < t.freq.length)
+    (hoff : onBoundary (ratRings (rings.map (fun r => (closeRing r).map (binPt t)))) (centre i j) = false) :
+    cell r.grid i j =
+      some (if insideRings (ratRings (rings.map (fun r => (closeRing r).map (binPt t)))) (centre i j) then v else fill) := by
+  rw [C20_general_cell B t _ _ fill false r h i j hi hj]
+  simp only [expandValues, List.length_cons, List.length_nil, List.replicate, List.zip_cons_cons, List.zip_nil_right,
+    List.reverse_cons, List.reverse_nil, List.nil_append, List.find?_cons, List.find?_nil, image,
+    hB i j hi hj hoff]
+  cases insideRings (ratRings (rings.map (fun r => (closeRing r).map (binPt t)))) (centre i j) <;> rfl
+
+/-- `all_touched` only ever adds cells: if the rasteriser's all-touched cells of every geometry's
+    image include its plain cells (monitored per geometry; fails for line geometries: known finding
+    C20-K1), then a cell burnt by some geometry without `all_touched` is burnt by some geometry with
+    it, and a cell untouched with `all_touched` holds the fill value in both rasters -/
+theorem C20_all_touched_adds (B : Burner) (t : Template) (geoms : List Geom) (values : Values) (fill : Rat)
+    (r0 r1 : Raster)
+    (hB : ∀ g ∈ geoms, TouchedSuperset B (image t g) t.time.length t.freq.length)
+    (h0 : rasterizeG B t geoms values fill false = .ok r0) (h1 : rasterizeG B t geoms values fill true = .ok r1)
+    (i j : Nat) (hi : i < t.time.length) (hj : j < t.freq.length) :
+    ((∃ g ∈ geoms, B (image t g) false t.time.length t.freq.length i j = true) →
+      ∃ g ∈ geoms, B (image t g) true t.time.length t.freq.length i j = true) ∧
+    ((∀ g ∈ geoms, B (image t g) true t.time.length t.freq.length i j = false) →
+      cell r1.grid i j = some fill ∧ cell r0.grid i j = some fill) := by
+  constructor
+  · rintro ⟨g, hg, hb⟩
+    exact ⟨g, hg, hB g hg i j hi hj hb⟩
+  · intro hnone
+    have hnone0 : ∀ g ∈ geoms, B (image t g) false t.time.length t.freq.length i j = false := by
+      intro g hg
+      cases hb : B (image t g) false t.time.length t.freq.length i j with
+      | false => rfl
+      | true => have := hB g hg i j hi hj hb; rw [hnone g hg] at this; cases this
+    rw [C20_general_cell B t _ _ fill true r1 h1 i j hi hj, C20_general_cell B t _ _ fill false r0 h0 i j hi hj]
+    have e1 : (List.zip geoms (expandValues values geoms.length)).reverse.find?
+        (fun p => B (image t p.1) true t.time.length t.freq.length i j) = none := by
+      rw [List.find?_eq_none]
+      intro p hp
+      simp [hnone p.1 (List.of_mem_zip (List.mem_reverse.mp hp)).1]
+    have e0 : (List.zip geoms (expandValues values geoms.length)).reverse.find?
+        (fun p => B (image t p.1) false t.time.length t.freq.length i j) = none := by
+      rw [List.find?_eq_none]
+      intro p hp
+      simp [hnone0 p.1 (List.of_mem_zip (List.mem_reverse.mp hp)).1]
+    rw [e1, e0]
+    exact ⟨rfl, rfl⟩
+
+/-- `rasterize(geometries, array)`: one value `1` for all geometries, fill `0`, no `all_touched`
+    (the defaults are re-extracted from the signature on every run: obligation `rasterize_defaults`) -/
+theorem C20_defaults (B : Burner) (t : Template) (geoms : List Geom) :
+    rasterizeD B t geoms none none none = rasterizeG B t geoms (.one 1) 0 false := rfl
+
+/-- the bin lookup of the model is the straight-line function `clampIndexR` that the symbolic
+    trace of `get_coord_index(raise_error=False)` is proved equal to for all inputs (obligation
+    `ext_get_coord_index_clamp`), applied to the axis range, the axis size and `#{c ≤ v}` -/
+theorem C20_clamp_index (coords : List Rat) (v : Rat) (hs : Sorted coords) (hne : coords ≠ []) :
+    ((binOf coords v : Nat) : Rat) =
+      clampIndexR (coords.head hne) (coords.getLast hne) v coords.length (countLE coords v) := by
+  have hlen : 0 < coords.length := List.length_pos_iff.mpr hne
+  rw [binOf_sorted coords v hs hne]
+  unfold clampIndexR
+  by_cases h1 : v < coords.head hne
+  · simp [h1]
+  · by_cases h2 : v > coords.getLast hne
+    · simp [h1, h2]
+    · have h0 : 0 < countLE coords v := by
+        rw [lt_countLE_iff hs v 0 hlen, ← List.head_eq_getElem hne]; exact Rat.not_lt.mp h1
+      simp only [h1, h2, if_false, or_self]
+      exact natCast_pred h0
+
+
+/-- end to end, in terms of the template's coordinates only: on increasing axes every cell `(i, j)`
+    of `rasterize`'s result holds the value of the last bounding box / time interval whose time span
+    covers bin `i` and whose frequency span covers bin `j` (`spanCovers`: the bin's right edge lies in
+    `(start, end]`; for the last bin `start ≤ last < end`), else the fill value -/
+theorem C20_box_cells_by_coordinates (t : Template) (hst : Sorted t.time) (hsf : Sorted t.freq)
+    (hnt : t.time ≠ []) (hnf : t.freq ≠ []) (geoms : List RGeom) (values : Values) (fill : Rat) (at' : Bool)
+    (r : Raster) (h : rasterize t geoms values fill at' = .ok r) (i j : Nat)
+    (hi : i < t.time.length) (hj : j < t.freq.length) :
+    cell r.grid i j =
+      some (match (List.zip geoms (expandValues values geoms.length)).reverse.find?
+                (fun p => coversCell t p.1 i j) with
+            | some p => p.2
+            | none => fill) := by
+  simp only [rasterize] at h
+  split at h
+  · cases h
+  · cases h
+    simp only [C20_cell_value _ _ _ _ i j hi hj, ← List.map_uncurry_zip_eq_zipWith, ← List.map_reverse,
+      List.find?_map]
+    have hfun : ((fun b : IBox => covered b i j) ∘ Function.uncurry (toIBox t))
+        = (fun p : RGeom × Rat => coversCell t p.1 i j) := by
+      funext p
+      exact covered_toIBox t hst hsf hnt hnf p.1 p.2 i j hi hj
+    rw [hfun]
+    cases (List.zip geoms (expandValues values geoms.length)).reverse.find?
+      (fun p : RGeom × Rat => coversCell t p.1 i j) with
+    | none => rfl
+    | some p =>
+      obtain ⟨g, v⟩ := p
+      cases g <;> rfl
+
+
 -- non-vacuity
 example : binOf [0, 1/4, 1/2, 3/4] (3/10) = 1 := by decide +kernel
 example : binOf [0, 1/4, 1/2, 3/4] 2 = 4 := by decide +kernel
-example : rasterBoxes 3 2 [⟨0, 0, 2, 1, 5⟩, ⟨1, 0, 3, 2, 7⟩] 0 = [[5, 0], [7, 7], [7, 7]] := by decide +kernel
+example : rasterBoxes 3 2 [⟨0, 0, 2, 1, 5⟩, ⟨1, 0, 3, 2, 7/2⟩] 0 = [[5, 0], [7/2, 7/2], [7/2, 7/2]] := by decide +kernel
 example : rasterize ⟨true, [0, 1/4, 1/2, 3/4], [0, 100, 200]⟩ [.box (1/4) 100 (3/4) 300] (.one 1) 0 false
     = .ok ⟨[0, 1/4, 1/2, 3/4], [0, 100, 200], [[0, 0, 0], [0, 1, 1], [0, 1, 1], [0, 0, 0]]⟩ := by decide +kernel
 example : rasterize ⟨false, [0], [0]⟩ [.interval 0 1] (.many []) 0 false = .error .invalid := by decide +kernel
 example : centreRuleViolations 2 2 [boxRing ⟨0, 0, 1, 2, 1⟩] [[true, true], [false, false]] = [] := by decide +kernel
+example : BoxRule refBurner ∧ PointRule refBurner := ⟨refBurner_boxRule, refBurner_pointRule⟩
+example : image ⟨true, [0, 1/4, 1/2, 3/4], [0, 100, 200]⟩ (.timeStamp (3/10)) = .line [(1, 0), (1, 3)] := by decide +kernel
+example : image ⟨true, [0, 1/4, 1/2, 3/4], [0, 100, 200]⟩ (.polygon [[(0, 0), (1/2, 150), (1, 50)]])
+    = .poly [[(0, 0), (2, 1), (4, 0), (0, 0)]] := by decide +kernel
+example : rasterizeG refBurner ⟨false, [0, 1/4, 1/2, 3/4], [0, 100, 200]⟩
+    [.boundingBox (1/4) 100 (3/4) 300, .point (1/2) 150, .timeInterval 0 (1/4)] (.many [1, 1/2, 3]) (-1) true
+    = .ok ⟨[0, 1/4, 1/2, 3/4], [0, 100, 200], [[3, 3, 3], [-1, 1, 1], [-1, 1/2, 1], [-1, -1, -1]]⟩ := by decide +kernel
+example : rasterizeD refBurner ⟨true, [0, 1], [0]⟩ [.point 0 0] none none none = .ok ⟨[0, 1], [0], [[1], [0]]⟩ := by
+  decide +kernel
+example : CentreRule (fun s _ _ _ i j => match s with | .poly rs => insideRings (ratRings rs) (centre i j) | _ => false)
+    [[(0, 0), (2, 1), (4, 0), (0, 0)]] 4 3 := fun _ _ _ _ _ => rfl
+example : coversCell ⟨true, [0, 1/4, 1/2, 3/4], [0, 100, 200]⟩ (.box (1/4) 100 (3/4) 300) 1 2 = true := by decide +kernel
+example : coversCell ⟨true, [0, 1/4, 1/2, 3/4], [0, 100, 200]⟩ (.box (1/4) 100 (3/4) 300) 3 2 = false := by decide +kernel
+example : clampIndexR 0 (3/4) (3/10) 4 2 = 1 ∧ clampIndexR 0 (3/4) 2 4 4 = 4 ∧ clampIndexR 0 (3/4) (-1) 4 0 = 0 := by decide +kernel
 
 end SE.Proofs.C20
